@@ -134,6 +134,30 @@ structure MMiscInfo where
   tail : List UInt8
   deriving DecidableEq, Repr
 
+/-- one element of a handle's object-information chain: `info_type`, `size_of_info` -/
+structure MObjInfo where
+  ty : Nat
+  size : Nat
+  deriving DecidableEq, Repr
+
+structure MHandle where
+  handle : Nat
+  typeName : Option (List Nat)
+  objectName : Option (List Nat)
+  attributes : Nat
+  grantedAccess : Nat
+  handleCount : Nat
+  pointerCount : Nat
+  /-- only written (and read) with `MINIDUMP_HANDLE_DESCRIPTOR_2` -/
+  infos : List MObjInfo
+  deriving DecidableEq, Repr
+
+/-- the handle-data stream: descriptors of the first (32 bytes) or the second (40 bytes) kind -/
+structure MHandleData where
+  v2 : Bool
+  handles : List MHandle
+  deriving DecidableEq, Repr
+
 structure DumpModel where
   flags : Nat
   /-- 4 bytes of padding between the count and the entries of the four `read_stream_list` streams -/
@@ -149,6 +173,7 @@ structure DumpModel where
   /-- raw streams (type, bytes) listed FIRST in the directory -/
   extra : List (Nat × List UInt8)
   miscInfo : Option MMiscInfo := none
+  handles : Option MHandleData := none
   deriving DecidableEq, Repr
 
 /-! ## integers and records -/
@@ -342,6 +367,72 @@ def encMiscInfo (e : Endian) (x : MMiscInfo) : List UInt8 :=
 
 def miscInfoSize (x : MMiscInfo) : Nat := Layout.size (miscLayout x.ver) + x.tail.length
 
+/-! ### handle data: out-of-band = per handle: type name?, object name?, the object-info chain -/
+
+def ST_HANDLE_DATA_STREAM : Nat := ST_HandleDataStream
+
+def optStringSize : Option (List Nat) → Nat
+  | none => 0
+  | some n => stringSize n
+
+def encOptString (e : Endian) : Option (List Nat) → List UInt8
+  | none => []
+  | some n => encString e n
+
+/-- the chain of `MINIDUMP_HANDLE_OBJECT_INFORMATION` records starting at file offset `base`; each
+    cites the next one, the last cites 0 -/
+def encInfos (e : Endian) : Nat → List MObjInfo → List UInt8
+  | _, [] => []
+  | _, [i] => encFields e MINIDUMP_HANDLE_OBJECT_INFORMATION [0, i.ty, i.size]
+  | base, i :: j :: rest =>
+    encFields e MINIDUMP_HANDLE_OBJECT_INFORMATION [base + 12, i.ty, i.size] ++ encInfos e (base + 12) (j :: rest)
+
+def handleInfos (v2 : Bool) (h : MHandle) : List MObjInfo := if v2 then h.infos else []
+
+def oobHandleSize (v2 : Bool) (h : MHandle) : Nat :=
+  optStringSize h.typeName + optStringSize h.objectName + 12 * (handleInfos v2 h).length
+
+def oobHandle (e : Endian) (v2 : Bool) (off : Nat) (h : MHandle) : List UInt8 :=
+  encOptString e h.typeName ++ encOptString e h.objectName ++
+    encInfos e (off + optStringSize h.typeName + optStringSize h.objectName) (handleInfos v2 h)
+
+def oobHandles (e : Endian) (v2 : Bool) : Nat → List MHandle → List UInt8
+  | _, [] => []
+  | off, h :: hs => oobHandle e v2 off h ++ oobHandles e v2 (off + oobHandleSize v2 h) hs
+
+def oobHandlesSize (v2 : Bool) : List MHandle → Nat
+  | [] => 0
+  | h :: hs => oobHandleSize v2 h + oobHandlesSize v2 hs
+
+/-- the RVA an optional item is cited with: 0 when absent -/
+def optOff {α : Type} (o : Option α) (off : Nat) : Nat :=
+  match o with
+  | none => 0
+  | some _ => off
+
+/-- the descriptor of a handle whose out-of-band data start at `off`; an absent name / an empty
+    chain is cited as RVA 0 -/
+def handleRec (v2 : Bool) (off : Nat) (h : MHandle) : List Nat :=
+  [h.handle, optOff h.typeName off, optOff h.objectName (off + optStringSize h.typeName),
+   h.attributes, h.grantedAccess, h.handleCount, h.pointerCount] ++
+  (if v2 then
+    [(if (handleInfos v2 h).isEmpty then 0 else off + optStringSize h.typeName + optStringSize h.objectName), 0]
+   else [])
+
+def handleRecs (v2 : Bool) : Nat → List MHandle → List (List Nat)
+  | _, [] => []
+  | off, h :: hs => handleRec v2 off h :: handleRecs v2 (off + oobHandleSize v2 h) hs
+
+def handleLayout (v2 : Bool) : Layout := if v2 then MINIDUMP_HANDLE_DESCRIPTOR_2 else MINIDUMP_HANDLE_DESCRIPTOR
+def handleDescSize (v2 : Bool) : Nat := if v2 then 40 else 32
+
+/-- `MINIDUMP_HANDLE_DATA_STREAM` header (16 bytes) + the descriptors -/
+def encHandleData (e : Endian) (off : Nat) (x : MHandleData) : List UInt8 :=
+  encFields e MINIDUMP_HANDLE_DATA_STREAM [16, handleDescSize x.v2, x.handles.length, 0] ++
+    encRecords e (handleLayout x.v2) (handleRecs x.v2 off x.handles)
+
+def handleDataSize (x : MHandleData) : Nat := 16 + handleDescSize x.v2 * x.handles.length
+
 /-! ## the whole file -/
 
 /-- sizes of the out-of-band groups -/
@@ -377,7 +468,8 @@ def coreStreamSizes (m : DumpModel) (f : MemForm) : List (Nat × Nat) :=
    (ST_UNLOADED_MODULE_LIST, 12 + 24 * m.unloaded.length)] ++
   optList m.exception (fun _ => (ST_EXCEPTION, 168)) ++
   optList m.sysInfo (fun _ => (ST_SYSTEM_INFO, 56)) ++
-  optList m.miscInfo (fun x => (ST_MISC_INFO, miscInfoSize x))
+  optList m.miscInfo (fun x => (ST_MISC_INFO, miscInfoSize x)) ++
+  optList m.handles (fun x => (ST_HANDLE_DATA_STREAM, handleDataSize x))
 
 def streamSizes (m : DumpModel) (f : MemForm) : List (Nat × Nat) :=
   m.extra.map (fun x => (x.1, x.2.length)) ++ coreStreamSizes m f
@@ -393,6 +485,11 @@ def excCtx (m : DumpModel) : List UInt8 := match m.exception with | none => [] |
 def csdString (e : Endian) (m : DumpModel) : List UInt8 :=
   match m.sysInfo with | none => [] | some s => encString e s.csd
 def csdSize (m : DumpModel) : Nat := match m.sysInfo with | none => 0 | some s => stringSize s.csd
+/-- the handles' out-of-band data, placed at file offset `off` -/
+def handlesOob (e : Endian) (off : Nat) (m : DumpModel) : List UInt8 :=
+  match m.handles with | none => [] | some x => oobHandles e x.v2 off x.handles
+def handlesOobSize (m : DumpModel) : Nat :=
+  match m.handles with | none => 0 | some x => oobHandlesSize x.v2 x.handles
 
 /-- offsets of the out-of-band groups -/
 structure OobOffsets where
@@ -403,6 +500,7 @@ structure OobOffsets where
   unloaded : Nat
   exc : Nat
   csd : Nat
+  handles : Nat
   stop : Nat
   deriving Repr
 
@@ -415,7 +513,8 @@ def oobOffsets (m : DumpModel) (f : MemForm) : OobOffsets :=
   let o5 := o4 + oobNamesSize (m.unloaded.map (·.name))
   let o6 := o5 + (excCtx m).length
   let o7 := o6 + csdSize m
-  ⟨o0, o1, o2, o3, o4, o5, o6, o7⟩
+  let o8 := o7 + handlesOobSize m
+  ⟨o0, o1, o2, o3, o4, o5, o6, o7, o8⟩
 
 /-- the streams after the extras: (type, bytes) -/
 def coreStreams (m : DumpModel) (e : Endian) (f : MemForm) : List (Nat × List UInt8) :=
@@ -430,15 +529,18 @@ def coreStreams (m : DumpModel) (e : Endian) (f : MemForm) : List (Nat × List U
    (ST_UNLOADED_MODULE_LIST, encUnloadedList e o.unloaded m.unloaded)] ++
   optList m.exception (fun x => (ST_EXCEPTION, encException e o.exc x)) ++
   optList m.sysInfo (fun s => (ST_SYSTEM_INFO, encSysInfo e o.csd s)) ++
-  optList m.miscInfo (fun x => (ST_MISC_INFO, encMiscInfo e x))
+  optList m.miscInfo (fun x => (ST_MISC_INFO, encMiscInfo e x)) ++
+  optList m.handles (fun x => (ST_HANDLE_DATA_STREAM, encHandleData e o.handles x))
 
 def allStreams (m : DumpModel) (e : Endian) (f : MemForm) : List (Nat × List UInt8) :=
   m.extra ++ coreStreams m e f
 
-def oobAll (m : DumpModel) (e : Endian) : List UInt8 :=
+/-- the out-of-band area, given the file offset of the handles' group (the object-info chains cite
+    absolute offsets) -/
+def oobAllAt (m : DumpModel) (e : Endian) (hoff : Nat) : List UInt8 :=
   oobThreads m.threads ++ oobModules e m.modules ++ oobMemory m.memory ++
   oobNames e (m.threadNames.map (·.2)) ++ oobNames e (m.unloaded.map (·.name)) ++
-  excCtx m ++ csdString e m
+  excCtx m ++ csdString e m ++ handlesOob e hoff m
 
 /-- `time_date_stamp` written into every header (the value minidump-synth uses) -/
 def HEADER_TIME : Nat := 1262805309
@@ -461,8 +563,10 @@ def streamsBytes : List (Nat × List UInt8) → List UInt8
 def encodeStreams (e : Endian) (flags : Nat) (ss : List (Nat × List UInt8)) : List UInt8 :=
   encHeader e ss.length flags ++ encDirectory e (32 + 12 * ss.length) ss ++ streamsBytes ss
 
+def oobAll (m : DumpModel) (e : Endian) (f : MemForm) : List UInt8 := oobAllAt m e (oobOffsets m f).handles
+
 def encodeList (m : DumpModel) (e : Endian) (f : MemForm) : List UInt8 :=
-  encodeStreams e m.flags (allStreams m e f) ++ oobAll m e
+  encodeStreams e m.flags (allStreams m e f) ++ oobAll m e f
 
 /-- **the serializer** -/
 def encode (m : DumpModel) (e : Endian) (f : MemForm) : Bytes := (encodeList m e f).toArray
@@ -491,6 +595,20 @@ structure RException where
   numberParameters : Nat
   info : List Nat
   ctx : Option (List UInt8)
+  deriving DecidableEq, Repr
+
+structure RHandle where
+  /-- which descriptor was read (`object_info_rva()` is `Some` for the second kind only) -/
+  v2 : Bool
+  handle : Nat
+  typeName : Option (List Nat)
+  objectName : Option (List Nat)
+  attributes : Nat
+  grantedAccess : Nat
+  handleCount : Nat
+  pointerCount : Nat
+  /-- `object_infos`: (info_type, size_of_info) in chain order -/
+  infos : List (Nat × Nat)
   deriving DecidableEq, Repr
 
 structure RSysInfo where
@@ -525,6 +643,7 @@ structure Reported where
   exception : Except Err RException
   sysInfo : Except Err RSysInfo
   miscInfo : Except Err MiscInfo
+  handles : Except Err (List RHandle)
 
 def sliceList (b : Bytes) (s e : Nat) : List UInt8 := (b.extract s e).toList
 
@@ -555,6 +674,11 @@ def rexceptionOf (b : Bytes) (x : Exception) : RException :=
   { threadId := x.threadId, code := x.code, flags := x.flags, record := x.record, address := x.address,
     numberParameters := x.numberParameters, info := x.info,
     ctx := x.context.map fun (s, e) => sliceList b s e }
+
+def rhandleOf (h : Handle) : RHandle :=
+  { v2 := h.vals.length == 9, handle := fld h.vals 0, typeName := h.typeName, objectName := h.objectName,
+    attributes := fld h.vals 3, grantedAccess := fld h.vals 4, handleCount := fld h.vals 5, pointerCount := fld h.vals 6,
+    infos := h.infos.map fun o => (o.ty, o.size) }
 
 /-- `MinidumpSystemInfo::read` [3175] (the raw record and the CSD string; the `cpu_info` text is
     not modelled) -/
@@ -601,6 +725,7 @@ def decode (b : Bytes) : Res Reported :=
     Res.bind (streamRes d b ST_EXCEPTION (fun s => readException s b e)) fun exc =>
     Res.bind (streamRes d b ST_SYSTEM_INFO (fun s => readSystemInfo s b e)) fun sys =>
     Res.bind (streamRes d b ST_MISC_INFO (fun s => readMiscInfo s e)) fun misc =>
+    Res.bind (streamRes d b ST_HANDLE_DATA_STREAM (fun s => readHandleData ms s b e)) fun handles =>
     .ok { endian := e, flags := d.header.flags,
           threads := threads.map (·.map (rthreadOf b)),
           modules := modules.map (·.map (mmoduleOf e)),
@@ -610,7 +735,8 @@ def decode (b : Bytes) : Res Reported :=
           unloaded := unloaded.map (·.map munloadedOf),
           exception := exc.map (rexceptionOf b),
           sysInfo := sys,
-          miscInfo := misc }
+          miscInfo := misc,
+          handles := handles.map (·.map rhandleOf) }
 
 /-! ## the model as the reader reports it -/
 
@@ -632,6 +758,11 @@ def reportSysInfo (s : MSysInfo) : RSysInfo :=
   { arch := s.arch, level := s.level, revision := s.revision, nproc := s.nproc, productType := s.productType,
     major := s.major, minor := s.minor, build := s.build, platform := s.platform, suite := s.suite, cpu := s.cpu,
     csd := some s.csd }
+
+def reportHandle (v2 : Bool) (h : MHandle) : RHandle :=
+  { v2 := v2, handle := h.handle, typeName := h.typeName, objectName := h.objectName, attributes := h.attributes,
+    grantedAccess := h.grantedAccess, handleCount := h.handleCount, pointerCount := h.pointerCount,
+    infos := (handleInfos v2 h).map fun i => (i.ty, i.size) }
 
 /-- What reading `encode m e f` yields: items in file order; a thread with an empty stack has no
     stack memory; modules with a "bad image size" (0, or reaching past 2^64-1) are skipped by the
@@ -656,7 +787,10 @@ def report (m : DumpModel) (e : Endian) (f : MemForm) : Reported :=
       | some s => .ok (reportSysInfo s),
     miscInfo := match m.miscInfo with
       | none => .error .StreamNotFound
-      | some x => .ok ⟨x.ver, x.vals⟩ }
+      | some x => .ok ⟨x.ver, x.vals⟩,
+    handles := match m.handles with
+      | none => .error .StreamNotFound
+      | some x => .ok (x.handles.map (reportHandle x.v2)) }
 
 /-! ## memory lookup: `memory_at_address` + `get_memory_at_address::<u8>` -/
 
@@ -922,6 +1056,37 @@ def parseMiscInfo (s : String) : Option (Option MMiscInfo) :=
     | _, _, _ => none
   | _ => none
 
+/-- optional name: `~` = none -/
+def parseOptName (s : String) : Option (Option (List Nat)) :=
+  if s == "~" then some none else (parseName s).map some
+
+/-- object infos: `` | `<ty>:<size>/<ty>:<size>…` -/
+def parseInfos (s : String) : Option (List MObjInfo) :=
+  if s == "" then some [] else
+  (s.splitOn "/").mapM fun (t : String) =>
+    match (t.splitOn ":").map Proto.optNat with
+    | [some ty, some size] => some ⟨ty, size⟩
+    | _ => none
+
+def parseHandle : List String → Option MHandle
+  | [h, tn, on, attr, ga, hc, pc, infos] =>
+    match Proto.optNat h, parseOptName tn, parseOptName on, Proto.optNat attr, Proto.optNat ga, Proto.optNat hc,
+          Proto.optNat pc, parseInfos infos with
+    | some h, some tn, some on, some attr, some ga, some hc, some pc, some infos => some ⟨h, tn, on, attr, ga, hc, pc, infos⟩
+    | _, _, _, _, _, _, _, _ => none
+  | _ => none
+
+/-- `-` | `<1|2>|<handle>;<handle>…` -/
+def parseHandleData (s : String) : Option (Option MHandleData) :=
+  if s == "-" then some none else
+  match s.splitOn "|" with
+  | [v, hs] =>
+    match Proto.optNat v, parseList parseHandle hs with
+    | some 1, some hs => some (some ⟨false, hs⟩)
+    | some 2, some hs => some (some ⟨true, hs⟩)
+    | _, _ => none
+  | _ => none
+
 def parseExtra : List String → Option (Nat × List UInt8)
   | [ty, bytes] =>
     match Proto.optNat ty, parseBytes bytes with
@@ -948,16 +1113,26 @@ def parseModel11 : List String → Option DumpModel
     | _, _, _, _, _, _, _, _, _, _, _ => none
   | _ => none
 
+/-- the optional trailing fields, each at most once, in this order: `Y=` misc info, `H=` handle data -/
+def parseOptional (m : DumpModel) : List String → Option DumpModel
+  | [] => some m
+  | t :: rest =>
+    if t.startsWith "Y=" then
+      match field "Y=" t >>= parseMiscInfo with
+      | some y => parseOptional { m with miscInfo := y } rest
+      | none => none
+    else if t.startsWith "H=" then
+      match field "H=" t >>= parseHandleData with
+      | some h => parseOptional { m with handles := h } rest
+      | none => none
+    else none
+
 /-- `fl=.. pad=0|1 T=.. M=.. R=.. I=.. N=.. U=.. X=.. S=.. D=..` optionally followed by `Y=..`
-    (misc info); a line without the optional fields has none of those streams -/
+    (misc info), `H=..` (handle data); a line without an optional field has no such stream -/
 def parseModel (toks : List String) : Option DumpModel :=
-  match toks.drop 11 with
-  | [] => parseModel11 toks
-  | [y] =>
-    match parseModel11 (toks.take 11), field "Y=" y >>= parseMiscInfo with
-    | some m, some y => some { m with miscInfo := y }
-    | _, _ => none
-  | _ => none
+  match parseModel11 (toks.take 11) with
+  | none => none
+  | some m => parseOptional m (toks.drop 11)
 
 def fnv64 (bs : List UInt8) : UInt64 :=
   bs.foldl (fun h b => (h ^^^ b.toUInt64) * 0x100000001b3) 0xcbf29ce484222325
@@ -1025,6 +1200,15 @@ def showMiscInfo : Except Err MiscInfo → String
         | none => "~"
         | some vs => showNatList vs))
 
+def showOptName : Option (List Nat) → String
+  | none => "~"
+  | some n => showName n
+
+def showHandle (h : RHandle) : String :=
+  s!"{if h.v2 then 2 else 1},{h.handle},{showOptName h.typeName},{showOptName h.objectName},{h.attributes}," ++
+  s!"{h.grantedAccess},{h.handleCount},{h.pointerCount}," ++
+  Proto.joinWith "/" (h.infos.map fun (t, sz) => s!"{t}:{sz}")
+
 /-- the probe addresses of a region list: around both ends of every region -/
 def probeAddrs (rs : List MRegion) : List Nat :=
   rs.flatMap fun r =>
@@ -1054,7 +1238,8 @@ def showReported (r : Reported) : String :=
     "U=" ++ showList showUnloaded r.unloaded,
     "X=" ++ showException r.exception,
     "S=" ++ showSysInfo r.sysInfo,
-    "Y=" ++ showMiscInfo r.miscInfo]
+    "Y=" ++ showMiscInfo r.miscInfo,
+    "H=" ++ showList showHandle r.handles]
 
 def showEndian : Endian → String
   | .little => "le"
